@@ -64,6 +64,7 @@ Fixpoint val_eqb (a b : val) {struct a} : bool :=
   | VDict x, VDict y => deq x y
   | VInt x, VInt y => Z.eqb x y
   | VBool x, VBool y => Bool.eqb x y
+  | VInf x, VInf y => Bool.eqb x y
   | _, _ => match as_q a, as_q b with
             | Some p, Some q => Qeq_bool p q
             | _, _ => false
@@ -76,6 +77,7 @@ Definition truthy (v : val) : bool :=
   | VBool b => b
   | VInt z => negb (Z.eqb z 0)
   | VQ q => negb (Qeq_bool q 0)
+  | VInf _ => true
   | VStr s => negb (String.eqb s "")
   | VList l | VTuple l | VSet l => match l with [] => false | _ => true end
   | VDict d => match d with [] => false | _ => true end
@@ -134,10 +136,27 @@ Definition num_bin (fz : Z -> Z -> Z) (fq : Q -> Q -> Q) (a b : val) : option va
   | _, _ => match as_z a, as_z b with Some x, Some y => Some (VInt (fz x y)) | _, _ => None end
   end.
 
+(* IEEE results involving an infinity that are not NaN; None = NaN or not numeric (Stuck) *)
+Definition inf_bin (op : binop) (a b : val) : option val :=
+  match op, a, b with
+  | Add, VInf p, VInf q => if Bool.eqb p q then Some (VInf p) else None
+  | Add, VInf p, _ => match as_q b with Some _ => Some (VInf p) | None => None end
+  | Add, _, VInf p => match as_q a with Some _ => Some (VInf p) | None => None end
+  | Sub, VInf p, VInf q => if Bool.eqb p q then None else Some (VInf p)
+  | Sub, VInf p, _ => match as_q b with Some _ => Some (VInf p) | None => None end
+  | Sub, _, VInf p => match as_q a with Some _ => Some (VInf (negb p)) | None => None end
+  | _, _, _ => None
+  end.
+
+Definition is_inf (v : val) : bool := match v with VInf _ => true | _ => false end.
+
 Definition set_inter (x y : list val) := filter (fun v => mem v y) x.
 Definition set_diff (x y : list val) := filter (fun v => negb (mem v y)) x.
 
 Definition binop_eval (op : binop) (a b : val) (st : state) : outcome val :=
+  if (is_inf a || is_inf b)%bool then
+    match inf_bin op a b with Some v => Ok v st | None => Stuck "arithmetic on an infinity" end
+  else
   match op, a, b with
   | Add, VStr s, VStr t => Ok (VStr (s ++ t)) st
   | Add, VList x, VList y => Ok (VList (x ++ y)) st
@@ -188,7 +207,22 @@ Definition cmp_eval (op : cmpop) (a b : val) : option bool :=
   | Eq => Some (val_eqb a b)
   | NotEq => Some (negb (val_eqb a b))
   | Lt | LtE | Gt | GtE =>
-      match as_q a, as_q b with Some p, Some q => Some (q_cmp op p q) | _, _ => None end
+      match a, b with
+      | VInf p, VInf q =>
+          Some (match op with
+                | Lt => (negb p && q)%bool | LtE => (negb p || q)%bool
+                | Gt => (p && negb q)%bool | _ => (p || negb q)%bool
+                end)
+      | VInf p, _ => match as_q b with
+                     | Some _ => Some (match op with Lt | LtE => negb p | _ => p end)
+                     | None => None
+                     end
+      | _, VInf p => match as_q a with
+                     | Some _ => Some (match op with Lt | LtE => p | _ => negb p end)
+                     | None => None
+                     end
+      | _, _ => match as_q a, as_q b with Some p, Some q => Some (q_cmp op p q) | _, _ => None end
+      end
   | In => option_map (mem a) (container_items b)
   | NotIn => option_map (fun l => negb (mem a l)) (container_items b)
   | Is => match a, b with
@@ -217,11 +251,9 @@ Fixpoint q_extreme (gt : bool) (best : val) (l : list val) : option val :=
   match l with
   | [] => Some best
   | x :: r =>
-      match as_q x, as_q best with
-      | Some p, Some q =>
-          let better := q_cmp (if gt then Gt else Lt) p q in
-          q_extreme gt (if better then x else best) r
-      | _, _ => None
+      match cmp_eval (if gt then Gt else Lt) x best with
+      | Some better => q_extreme gt (if better then x else best) r
+      | None => None
       end
   end.
 
